@@ -196,7 +196,22 @@ static void fatalHandler(int sig, siginfo_t* si, void* uc) {
 	_exit(inApi ? 3 : 2);
 }
 
+#if defined(__SANITIZE_ADDRESS__)
+// ASan calls this before printing a report: attribute the report to the case in progress
+extern "C" void __asan_on_error() {
+	static char line[sizeof(g_caseBuf) + 128];
+	size_t p = 0;
+	p = appendStr(line, p, sizeof line, "{\"type\":\"sanitizer_case\",\"case\":");
+	if (g_caseLen && p + g_caseLen + 8 < sizeof line) { memcpy(line + p, g_caseBuf, g_caseLen); p += g_caseLen; } else p = appendStr(line, p, sizeof line, "null");
+	p = appendStr(line, p, sizeof line, "}\n");
+	if (R.fd >= 0) writeAll(R.fd, line, p);
+}
+#endif
+
 void installSignalHandlers() {
+#if defined(__SANITIZE_ADDRESS__) || defined(__SANITIZE_THREAD__)
+	return; // the sanitizer runtime reports fatal signals itself (with stacks); its log is parsed by the driver
+#endif
 	stack_t ss; ss.ss_sp = g_altStack; ss.ss_size = sizeof g_altStack; ss.ss_flags = 0;
 	sigaltstack(&ss, nullptr);
 	struct sigaction sa; memset(&sa, 0, sizeof sa);
